@@ -14,11 +14,13 @@ THEOREMS = [f"NumbersModel.Props.C19.{t}" for t in (
     "index_outside_raises",
     # the document tree (Model/DocTree.lean): names and order after save / reopen from any file order, for every history
     "valid_after_history", "order_after_reload", "order_after_reload_saved", "order_after_reload_history", "add_sheet_appends",
+    "add_sheet_succeeds", "creation_ignores_blobs",
     "order_after_reload_pinned", "isolation_table_setter", "isolation_sheet_rename")] + [f"NumbersModel.Props.C19.Src.{t}" for t in (
     # the lookup clauses over ItemsList.__getitem__ as py2lean regenerates it from containers.py on every run
     "src_index_agrees_with_iteration", "src_index_outside_raises", "src_lookup_by_name_exact", "src_other_key_raises")] + \
     [f"NumbersModel.Translated.{t}" for t in ("getitem_int_eq_model", "getitem_str_eq_model", "getitem_other")] + \
-    [f"NumbersModel.DocTree.{t}" for t in ("run_valid", "names_perm", "tableIds_perm", "serialise_perm", "load_objects")]
+    [f"NumbersModel.DocTree.{t}" for t in ("run_valid", "names_perm", "tableIds_perm", "serialise_perm", "load_objects",
+                                            "createObject_total", "createOthers_total")]
 TRANSLATED_GROUPS = ("Items",)
 PARTIAL = {
     "add_table_appends": "that _NumbersModel.add_table puts the new table last in table_ids(sheet) and leaves the other sheets' lists alone is "
@@ -32,14 +34,16 @@ PARTIAL = {
     "files_match": "order_after_reload quantifies over every package holding exactly the store's objects; that Document.save writes such a "
                    "package (hypothesis FilesMatch of order_after_reload_saved) is compared on every saved file, member by member and "
                    "archive by archive, with the model's serialise - not proved to be kept by create_object_from_dict when a new member's "
-                   "formatted name collides with an existing one",
+                   "formatted name collides with an existing one (the only way left: since fixes/C19-new-objects-go-to-iwa-members.patch a "
+                   "new object never goes to a member that is not an IWA archive, createObject_total / creation_ignores_blobs)",
 }
 RULE = ("seeded histories of add_sheet/add_table (named from a pool with case variants, generated-looking names, empty, "
         "non-ASCII incl. multi-char lowercasings; unnamed) and renames over new and loaded documents, each followed by lookups "
         "by every index in [-2n,2n], by name and `in` tests; one protocol line per collection (sheets of a document, tables of a "
         "sheet). Document-tree stream: seeded histories over new documents and 5 fixtures of add_sheet / add_table (explicit or default "
         "position, 2..300 rows, header counts) / sheet and table renames / name and caption visibility / caption text / header counts / "
-        "views / save + layout rewrite (id, members reversed, archives of every member reversed, both, archives rotated) + reopen; one "
+        "views / save + layout rewrite (id, members reversed, archives of every member reversed, both, archives rotated) + reopen, with an "
+        "add_sheet / add_table forced right after every reopen of a member-reversed container; one "
         "protocol line per history carrying the whole live store (every identifier, every member). Non-trivial = a collection history "
         "containing at least one add, a document-tree history with an add or a reload; distinct by its full operation line")
 ASSUMPTIONS = ["str.lower() is computed by the interpreter and passed to the model as data; ('<Prefix> <n>').lower() == '<prefix> <n>'",
@@ -69,12 +73,19 @@ MANIFEST = {
             "order_after_reload_saved (the saved package and every rearrangement of it), valid_after_history / order_after_reload_history "
             "(the side conditions - distinct identifiers, every table info listed by its parent sheet, table models not shared - are kept "
             "by every history of add_sheet / add_table / renames / caption, visibility and header-count setters / creation of other objects), "
-            "add_sheet_appends, isolation_table_setter / isolation_sheet_rename. The pinned table_ids (store order) is kept as "
+            "add_sheet_appends, add_sheet_succeeds (on every valid document with a document object add_sheet returns a new sheet - for EVERY file "
+            "store: members in any order, blobs of any name; createObject_total / createOthers_total: create_object_from_dict raises nothing; "
+            "creation_ignores_blobs: the candidate members are those of the store with every non-IWA blob removed), "
+            "isolation_table_setter / isolation_sheet_rename. The pinned create_object_from_dict (first member whose name contains the pattern, "
+            "also a bytes blob -> AttributeError) is kept as createObjectPinned with a counter-example by decide on the same document with its "
+            "members reversed. The pinned table_ids (store order) is kept as "
             "tableIdsPinned with a counter-example by decide and the exact condition under which it keeps the order "
             "(order_after_reload_pinned).",
     "note": "str.lower is supplied by the interpreter as data. Defect found and repaired (fixes/C06-table-order-from-drawable-list.patch): "
-            "table order inside a sheet followed the order of the archives inside Index/CalculationEngine.iwa. Known finding "
-            "edit-raises-on-reordered-container (add_sheet on a container that lists Metadata/DocumentIdentifier before Index/Document.iwa).",
+            "table order inside a sheet followed the order of the archives inside Index/CalculationEngine.iwa. Defect found and repaired "
+            "(fixes/C19-new-objects-go-to-iwa-members.patch, formerly known finding edit-raises-on-reordered-container): add_sheet / every object "
+            "creation in 'Document' raised AttributeError on a container that lists Metadata/DocumentIdentifier before Index/Document.iwa (any saved "
+            "file with its zip members in reverse order); histories now go on adding sheets and tables right after reopening such a container.",
     "technique": "Lean 4 proof (invariant preservation over operation histories, permutation invariance of a stable sort with injective keys, "
                  "pigeonhole for termination; __getitem__ proved equal to its translation from the Python source) + differential correspondence "
                  "on edit histories incl. the saved package read independently and reopened from rewritten layouts",
@@ -424,12 +435,20 @@ def doctree_history(ctx: Ctx, hid: int, src, nops: int, foreign: bool = False):
                           {**where, "log": list(log)})
 
     try:
-        for step_no in range(nops + (1 if foreign else 0)):
+        total = nops + (1 if foreign else 0)
+        force_add = False   # the container just reopened lists its members in reverse: the next step creates objects in it
+        step_no = -1
+        while step_no + 1 < total:
+            step_no += 1
             if dead:
                 break
             r = rng.random() if step_no < nops else 0.99
             before = doctree.plain_view(doc)
             ns = len(doc.sheets)
+            if force_add:
+                force_add = False
+                r = 0.05 if ns < 5 and rng.random() < 0.6 else 0.2
+                ctx.count("add_sheet / add_table right after reopening a container with its members reversed", 1)
             if r < 0.12 and ns < 5:
                 nm, tn = fresh(), fresh()
                 rows, cols = rng.choice([2, 5, 300]), rng.choice([2, 3])
@@ -447,11 +466,8 @@ def doctree_history(ctx: Ctx, hid: int, src, nops: int, foreign: bool = False):
                     ops.append(f"AS {enc_text(nm)}")
                     outs.append("err " + exc_name(e))
                     dead = True
-                    if isinstance(e, AttributeError) and foreign:
-                        ctx.count("add_sheet raised AttributeError on a member-reversed container (C19 known finding): history ended", 1)
-                    else:
-                        ctx.violation("edit-raises-on-reordered-container" if isinstance(e, AttributeError) else "add-wrong-exception",
-                                      f"add_sheet({nm!r}) raised {exc_name(e)}: {e}", {**where, "log": list(log)})
+                    ctx.violation("edit-raises-on-reordered-container" if isinstance(e, AttributeError) else "add-wrong-exception",
+                                  f"add_sheet({nm!r}) raised {exc_name(e)}: {e}", {**where, "log": list(log)})
             elif r < 0.34:
                 si = rng.randrange(ns)
                 s = doc.sheets[si]
@@ -477,7 +493,10 @@ def doctree_history(ctx: Ctx, hid: int, src, nops: int, foreign: bool = False):
                         ctx.violation("add-disturbs-order", f"add_table({nm!r}) on sheet #{si}: before {before!r} after {after!r}", {**where, "log": list(log)})
                 except Exception as e:  # noqa: BLE001
                     dead = True
-                    ctx.violation("add-wrong-exception", f"add_table({nm!r}) raised {exc_name(e)}: {e}", {**where, "log": list(log)})
+                    ops.append(f"AT {s._sheet_id} {enc_text(nm)} {frm} 0 0 {rows} {hr} {hc}")
+                    outs.append("err " + exc_name(e))
+                    ctx.violation("edit-raises-on-reordered-container" if isinstance(e, AttributeError) else "add-wrong-exception",
+                                  f"add_table({nm!r}) raised {exc_name(e)}: {e}", {**where, "log": list(log)})
             elif r < 0.44:
                 si = rng.randrange(ns)
                 nm = fresh()
@@ -556,6 +575,12 @@ def doctree_history(ctx: Ctx, hid: int, src, nops: int, foreign: bool = False):
                 doc = Document(p2)
                 outs.append(doctree.api_view(doc))
                 after = doctree.plain_view(doc)
+                if mode in ("revm", "both"):
+                    # the reopened container lists Metadata/DocumentIdentifier before Index/Document.iwa (and the other members in
+                    # reverse): object creation must go on working there (fixes/C19-new-objects-go-to-iwa-members.patch)
+                    force_add = True
+                    if step_no + 1 >= total:
+                        total += 1
                 if not facts0 and doctree.store_facts(doc):
                     ctx.violation("store-side-condition-lost", f"after reopening: {doctree.store_facts(doc)[:3]}", {**where, "log": list(log)})
                 ctx.count(f"save / rewrite ({mode}) / reopen: names, order and labels", 1)
@@ -596,7 +621,8 @@ def _dt_worker(task):
 
 def doctree_stream(ctx: Ctx, n_hist: int | None = None, foreign: bool = False):
     """foreign=True: called from another property's check (C16 labels, C06 table order): a smaller volume, every history ends
-    with a save + non-trivial layout rewrite + reopen, and C19's own known finding is not reported there."""
+    with a save + non-trivial layout rewrite + reopen (and, when the members were reversed, one add_sheet / add_table in the
+    reopened container)."""
     if n_hist is None:
         n_hist = 96 if ctx.quick else 2400
     tasks = []
